@@ -72,30 +72,82 @@ theorem readCell_noCtl (loc : Nat) : NoCtl (readCell loc) := by
   unfold readCell at h
   split at h <;> first | (cases h; done) | (cases h; rfl)
 
+theorem writeCell_noCtl (loc : Nat) (v : Val) : NoCtl (writeCell loc v) := by
+  intro σ s σ' h
+  unfold writeCell at h
+  split at h <;> first | (cases h; done) | (cases h; rfl)
+
+theorem newCell_noCtl (t : Ty) (v : Val) : NoCtl (newCell t v) := by
+  intro σ s σ' h; cases h
+
+theorem freshId_noCtl : NoCtl freshId := by
+  intro σ s σ' h; cases h
+
+theorem optIdx_noCtl (o : Option Val) (s : Sig) (h : optIdx o = .error s) : isCtl s = false := by
+  unfold optIdx at h
+  split at h <;> first | (cases h; done) | (cases h; rfl)
+
+theorem sliceVal_noCtl (x : Val) (a b c : Option Val) (s : Sig) (h : sliceVal x a b c = .error s) : isCtl s = false := by
+  unfold sliceVal at h
+  cases ha : optIdx a with
+  | error e => rw [ha] at h; cases h; exact optIdx_noCtl a _ ha
+  | ok a' =>
+    cases hb : optIdx b with
+    | error e => rw [ha, hb] at h; cases h; exact optIdx_noCtl b _ hb
+    | ok b' =>
+      cases hc : optIdx c with
+      | error e => rw [ha, hb, hc] at h; cases h; exact optIdx_noCtl c _ hc
+      | ok c' =>
+        rw [ha, hb, hc] at h
+        simp only [bind, Except.bind] at h
+        split at h <;> first | (cases h; done) | (cases h; rfl)
+
 attribute [local irreducible] NoCtl
 
 mutual
-/-- the expression forms covered (what the grammar's `expr` can be, without the iterator operators) -/
+/-- the expression forms covered: everything the grammar's `expr` can be, except function literals and modules -/
 def condForm : Expr → Bool
   | .litBool _ | .litInt _ | .litFloat _ | .litStr _ | .litUnit | .var _ => true
   | .array es => condFormL es
   | .tuple es => condFormL es
+  | .struct fs => condFormF fs
+  | .arrayRepeat v n => condForm v && condForm n
+  | .mutE _ e => condForm e
   | .pre _ e => condForm e
   | .and a b => condForm a && condForm b
   | .or a b => condForm a && condForm b
-  | .bin op a b => foldsConst op && condForm a && condForm b
+  | .bin _ a b => condForm a && condForm b
+  | .assign _ t v => condForm t && condForm v
   | .at a i => condForm a && condForm i
+  | .slice a s e st => condForm a && condFormO s && condFormO e && condFormO st
   | .tacc e _ => condForm e
+  | .facc e _ => condForm e
+  | .tfilter e _ => condForm e
+  | .post _ e => condForm e
+  | .reduce it init f => condForm it && condForm init && condForm f
   | .call f args => condForm f && condFormL args
   | _ => false
+def condFormO : Option Expr → Bool
+  | none => true
+  | some e => condForm e
 def condFormL : List Expr → Bool
   | [] => true
   | e :: es => condForm e && condFormL es
+def condFormF : List (String × Expr) → Bool
+  | [] => true
+  | (_, e) :: es => condForm e && condFormF es
 end
 
 structure NoCtlAt (f : Nat) : Prop where
   eval : ∀ env e, condForm e = true → NoCtl (eval f env e)
   evalList : ∀ env es, condFormL es = true → NoCtl (evalList f env es)
+  evalOpt : ∀ env e, condFormO e = true → NoCtl (evalOpt f env e)
+  evalFields : ∀ env fs, condFormF fs = true → NoCtl (evalFields f env fs)
+  pull : ∀ it, NoCtl (pull f it)
+  collectGo : ∀ it acc, NoCtl (collectGo f it acc)
+  partitionGo : ∀ it p l r, NoCtl (partitionGo f it p l r)
+  reduceGo : ∀ it acc g, NoCtl (reduceGo f it acc g)
+  boolGo : ∀ it u, NoCtl (boolGo f it u)
 
 syntax "noctl_step" ident : tactic
 set_option hygiene false in
@@ -106,6 +158,17 @@ macro_rules
       | exact NoCtl.throw _ rfl
       | exact callFn_noCtl _ _ _
       | exact readCell_noCtl _
+      | exact writeCell_noCtl _ _
+      | exact newCell_noCtl _ _
+      | exact freshId_noCtl
+      | exact NoCtl.liftE _ (sliceVal_noCtl _ _ _ _)
+      | exact ($ih).pull _
+      | exact ($ih).collectGo _ _
+      | exact ($ih).partitionGo _ _ _ _
+      | exact ($ih).reduceGo _ _ _
+      | exact ($ih).boolGo _ _
+      | (apply ($ih).evalOpt; first | assumption | (simp only [hc]; done))
+      | (apply ($ih).evalFields; first | assumption | (simp only [hc]; done))
       | exact NoCtl.liftE _ (binScalar_noCtl _ _ _)
       | exact NoCtl.liftE _ (preScalar_noCtl _ _)
       | exact NoCtl.liftE _ (atVal_noCtl _ _)
@@ -117,7 +180,9 @@ macro_rules
       | (split <;> try simp only []))
 
 theorem noCtlAt_zero : NoCtlAt 0 := by
-  constructor <;> intros <;> simp only [eval, evalList] <;> exact NoCtl.throw _ rfl
+  constructor <;> intros <;>
+    simp only [eval, evalList, evalOpt, evalFields, pull, collectGo, partitionGo, reduceGo, boolGo] <;>
+    exact NoCtl.throw _ rfl
 
 theorem noCtlAt_succ (f : Nat) (ih : NoCtlAt f) : NoCtlAt (f + 1) := by
   constructor
@@ -128,7 +193,10 @@ theorem noCtlAt_succ (f : Nat) (ih : NoCtlAt f) : NoCtlAt (f + 1) := by
       cases op <;> simp only [eval] <;> repeat (any_goals (noctl_step ih))
     case bin op a b =>
       simp only [condForm, Bool.and_eq_true] at hc
-      cases op <;> simp [foldsConst] at hc <;> simp only [eval] <;> repeat (any_goals (noctl_step ih))
+      cases op <;> simp only [eval] <;> repeat (any_goals (noctl_step ih))
+    case post op e =>
+      simp only [condForm] at hc
+      cases op <;> simp only [eval] <;> repeat (any_goals (noctl_step ih))
     all_goals
       first
       | (simp [condForm] at hc; done)
@@ -142,6 +210,26 @@ theorem noCtlAt_succ (f : Nat) (ih : NoCtlAt f) : NoCtlAt (f + 1) := by
       simp only [condFormL, Bool.and_eq_true] at hc
       simp only [evalList]
       repeat (any_goals (noctl_step ih))
+  · intro env e hc
+    cases e with
+    | none => simp only [evalOpt]; exact NoCtl.pure _
+    | some e =>
+      simp only [condFormO] at hc
+      simp only [evalOpt]
+      repeat (any_goals (noctl_step ih))
+  · intro env fs hc
+    cases fs with
+    | nil => simp only [evalFields]; exact NoCtl.pure _
+    | cons p fs =>
+      obtain ⟨k, e⟩ := p
+      simp only [condFormF, Bool.and_eq_true] at hc
+      simp only [evalFields]
+      repeat (any_goals (noctl_step ih))
+  · intro it; simp only [pull]; repeat (any_goals (noctl_step ih))
+  · intro it acc; simp only [collectGo]; repeat (any_goals (noctl_step ih))
+  · intro it p l r; simp only [partitionGo]; repeat (any_goals (noctl_step ih))
+  · intro it acc g; simp only [reduceGo]; repeat (any_goals (noctl_step ih))
+  · intro it u; simp only [boolGo]; repeat (any_goals (noctl_step ih))
 
 theorem noCtl_all : ∀ f, NoCtlAt f
   | 0 => noCtlAt_zero
